@@ -96,7 +96,7 @@ def distinct_elems(lst):
 
 
 class OffsetsLoop(LoopSpec):
-    havoc_types = {'t': 'optreal'}
+    havoc_types = {'t': 'optreal', 'story_offsets': 'nodedict'}
 
     def __init__(self, owner):
         self.o = owner
